@@ -351,6 +351,59 @@ def shared_class_containers(ctx):
                        % (cname, mutation[0]), line=lineno)
 
 
+def handlers_configuration_rule(ctx):
+    """the processor builds handlers of its own around the copied state; they behave like the live ones only if a
+    GcodeHandlers carries no configuration besides that state: nobody sets an attribute of a handlers object from
+    outside the class, and every construction site passes the same kind of arguments"""
+    m = ctx.model
+    ci = m.classes.get('GcodeHandlers')
+    if ci is None:
+        raise AnalysisError('anchor vanished: class GcodeHandlers')
+    attrs = set()
+    for fn in list(ci.methods.values()) + list(ci.setters.values()):
+        for n in ast.walk(fn):
+            if isinstance(n, ast.Attribute) and isinstance(n.ctx, ast.Store) and isinstance(n.value, ast.Name) and n.value.id == 'self':
+                attrs.add(n.attr)
+    for attr in sorted(attrs):
+        ctx.instance('C20.R11', ('attr', attr))
+        for cname, fn, mod in census.functions(m):
+            if cname == 'GcodeHandlers':
+                continue
+            q = '%s.%s' % (cname, fn.name) if cname else fn.name
+            for n in ast.walk(fn):
+                if isinstance(n, ast.Attribute) and n.attr == attr and isinstance(n.ctx, (ast.Store, ast.Del)):
+                    recv = ast.unparse(n.value)
+                    if 'andlers' not in recv:
+                        continue            # an attribute of the same name on another kind of object
+                    ctx.report('C20.R11', q, '%s.%s assigned outside GcodeHandlers' % (recv, attr),
+                               'the live handlers object is configured from outside (%s.%s = ...); the handlers the stream '
+                               'processor builds around its copy of the state never receive that value, so the offline filter '
+                               'can decide differently from the live one' % (recv, attr), line=n.lineno)
+    shapes = {}
+    for cname, fn, mod in census.functions(m):
+        q = '%s.%s' % (cname, fn.name) if cname else fn.name
+        for n in ast.walk(fn):
+            if isinstance(n, ast.Call) and isinstance(n.func, ast.Name) and n.func.id == 'GcodeHandlers':
+                shapes[q, n.lineno] = (len(n.args), tuple(sorted(k.arg or '**' for k in n.keywords)))
+                ctx.instance('C20.R11', ('construction', q))
+    if len(set(shapes.values())) > 1:
+        (q, line) = sorted(shapes)[0]
+        ctx.report('C20.R11', q, 'GcodeHandlers constructed with different argument shapes: %r' % (sorted(set(shapes.values())),),
+                   'the live handlers and the stream processor\'s handlers are built with different arguments', line=line)
+    if not any(q.startswith('StreamProcessor.') for (q, _l) in shapes):
+        raise AnalysisError('anchor vanished: StreamProcessor no longer constructs its own GcodeHandlers')
+
+
+def handler_shape_paths(col, gcode, paths, I):
+    """C09 as a premise: the mapping of handler results to output lines (C20.R3) is only right for the shapes C09.R1 allows"""
+    col.rule('C09.R1', 'C09: the result of handleGcode on every abstract path is None, IGNORE or a non-empty list of non-empty '
+                       'commands (the shapes the processor maps to output lines)', floor=100)
+    col.rule('C09.R3', 'C09: no abstract path of a hook entry point ends in an exception (one would abort the filtering of the file)', floor=40)
+    col.rule('C09.R4', 'C09: the retraction record keeps its representation invariant on every path', floor=4)
+    from . import rules_c09
+    rules_c09.path_rules(col, gcode, paths, I, own=False)
+
+
 def run(ctx, tier):
     declare(ctx)
     ctx.rule('C20.R8', 'the processor\'s private copy starts out equal to the live state: nothing on the construction path (the '
@@ -362,10 +415,16 @@ def run(ctx, tier):
     from . import rules_c18
     rules_c18.parse_rules(ctx, rules_c18.parser_interp(ctx.model, unroll=2), r5='C20.R7', freshness_only=True)
     shared_class_containers(ctx)
+    ctx.rule('C20.R11', 'a GcodeHandlers object carries no configuration besides its state: no attribute of it is assigned from '
+                        'outside the class and every construction site passes the same kind of arguments (the processor\'s own '
+                        'handlers are then equivalent to the live ones)', floor=4)
+    handlers_configuration_rule(ctx)
     I = make_interp(ctx.model, unroll=2 if tier == 'thorough' else 1)
     isolation_rule(ctx, I)
     install_handler_summaries(I)
     line_rules(ctx, I)
-    ctx.assume('handleGcode returns None, IGNORE or a non-empty list (C09.R1); handleAtCommand returns a boolean and sends '
-               'through the comm object (C14)')
+    from .handlers import run_path_rules
+    from .entries import gcodes_to_analyse
+    run_path_rules(ctx, __name__, 'handler_shape_paths', gcodes_to_analyse(ctx.model), unroll=1)
+    ctx.assume('handleAtCommand returns a boolean and sends through the comm object (C14)')
     ctx.assume('OctoPrint passes the live hook the stripped command text (its comm layer strips comments and line numbers)')
